@@ -765,3 +765,56 @@ func TestHistories(t *testing.T) {
 		ev.Case(repeats > 0 || relinked, ev.Hash(strings.Join(hist, ";")), func() string { return strings.Join(hist, "; ") })
 	})
 }
+
+// TestLinkThroughDestination: defect 14 (section 4) as a plain regression, without the library: the source is a
+// symbolic link that reaches the file through the destination, which is a link itself (b -> c -> a, MoveFile(b, c)),
+// with absolute and relative targets, two and three hops, for both operations.
+func TestLinkThroughDestination(t *testing.T) {
+	for _, move := range []bool{true, false} {
+		for _, relative := range []bool{false, true} {
+			for _, extraHop := range []bool{false, true} {
+				dir, err := os.MkdirTemp("", "c18l-")
+				if err != nil {
+					t.Skip("no temporary directory")
+				}
+				data := content(4321, 77)
+				a, b, c, m := filepath.Join(dir, "a.bin"), filepath.Join(dir, "b.link"), filepath.Join(dir, "c.link"), filepath.Join(dir, "m.link")
+				os.WriteFile(a, data, 0o644)
+				target := func(p string) string {
+					if relative {
+						return filepath.Base(p)
+					}
+					return p
+				}
+				os.Symlink(target(a), c)
+				if extraHop {
+					os.Symlink(target(c), m)
+					os.Symlink(target(m), b)
+				} else {
+					os.Symlink(target(c), b)
+				}
+				var callErr error
+				name := "CopyFile"
+				if move {
+					name = "MoveFile"
+					callErr = osutil.MoveFile(b, c)
+				} else {
+					_, callErr = osutil.CopyFile(b, c)
+				}
+				what := fmt.Sprintf("%s(b.link, c.link) with b.link -> %sc.link -> a.bin (relative targets: %v)", name, map[bool]string{true: "m.link -> ", false: ""}[extraHop], relative)
+				if callErr != nil {
+					if got, err := os.ReadFile(b); err != nil || !bytes.Equal(got, data) {
+						t.Errorf("%s returned %v and the source reads %d bytes now (err=%v), it read %d before", what, callErr, len(got), err, len(data))
+					}
+				} else if got, err := os.ReadFile(c); err != nil || !bytes.Equal(got, data) {
+					t.Errorf("%s returned nil but the destination reads %d bytes (err=%v), not the %d bytes the source read", what, len(got), err, len(data))
+				}
+				if got, err := os.ReadFile(a); err != nil || !bytes.Equal(got, data) {
+					t.Errorf("%s: the file itself reads %d bytes now (err=%v)", what, len(got), err)
+				}
+				os.RemoveAll(dir)
+				ev.Case(true, ev.Hash("link-through-destination", what), func() string { return what + fmt.Sprintf(" = %v", callErr != nil) })
+			}
+		}
+	}
+}
